@@ -985,6 +985,9 @@ fn frames_may_and_fatal(frames: &[Resolved], sent_at_forge: Option<u64>, sent_ev
                     // a buffer limit may be hit (RFC 9000 7.5)
                     may.insert("Crypto(*)".to_string());
                     may.insert("CryptoBufferExceeded".to_string());
+                    // the ClientHello / EncryptedExtensions carry the transport parameters: changed
+                    // bytes there legitimately end the handshake with TRANSPORT_PARAMETER_ERROR
+                    may.insert("TransportParameter".to_string());
                     r.class(if *off >= 1 << 30 { "frame:CRYPTO:far-offset" } else if *len == 0 { "frame:CRYPTO:empty" } else { "frame:CRYPTO:near" });
                 }
             }
@@ -1284,6 +1287,16 @@ fn judge(case: &Case, obs: &Obs, panics: &[(String, String)]) -> Reply {
     // (c3) a frame that must end the connection, in a packet that certainly reached the dispatcher
     for j in judged.iter().filter(|j| j.processed_certain && !j.fatal_frames.is_empty()) {
         let t = terms.iter().find(|(v, _)| *v == j.victim).unwrap().1;
+        // A server that the application has not accepted yet shows its end only through a
+        // CONNECTION_CLOSE in an Initial packet of its own. A forged CONNECTION_CLOSE puts it into the
+        // draining state, in which it sends nothing: its end is then not observable.
+        let drained_silently = j.victim == Victim::Server
+            && !obs.server_accepted
+            && judged.iter().any(|k| k.victim == Victim::Server && k.fatal_frames.iter().any(|f| f.starts_with("CONNECTION_CLOSE")));
+        if t.is_none() && drained_silently {
+            r.class("must-terminate:unobservable(draining)");
+            continue;
+        }
         match t {
             None => r.fatal(
                 format!("hostile-frame-accepted:{}", j.fatal_frames[0].split(':').next().unwrap_or("?")),
